@@ -267,10 +267,89 @@ fn replay_deletion(sc: &Value) -> Value {
     }
 }
 
+fn replay_validate_node(sc: &Value) -> Value {
+    let mut keys = Keys::new();
+    let ra = match room_auth(sc, &mut keys) {
+        Ok(r) => r,
+        Err(e) => return json!({"status": "precondition", "detail": e}),
+    };
+    let id = sc["id"].as_str().unwrap();
+    let node = if sc["node"].is_null() {
+        None
+    } else {
+        Some(build_node(id, &sc["node"], &mut keys))
+    };
+    let nti = NodeToInsert {
+        id: uid(id),
+        node,
+        entity_name: sc["entity_name"].as_str().map(|x| x.to_string()),
+        index: true,
+        old_room_id: opt_uid(&sc["old_room"]),
+        old_mdate: 0,
+        old_verifying_key: sc["old_key"].as_str().map(|k| keys.vk(k)),
+        old_local_id: None,
+        old_fts_str: None,
+        node_fts_str: None,
+    };
+    json!({"status": "done", "result": ra.validate_node(&nti)})
+}
+
+fn replay_validate_deletions_remote(sc: &Value) -> Value {
+    let mut keys = Keys::new();
+    let ra = match room_auth(sc, &mut keys) {
+        Ok(r) => r,
+        Err(e) => return json!({"status": "precondition", "detail": e}),
+    };
+    let mut out: Vec<String> = vec![];
+    if sc["which"].as_str().unwrap() == "edge" {
+        let mut v = vec![];
+        for r in sc["rows"].as_array().unwrap() {
+            let e = EdgeDeletionEntry {
+                room_id: uid(r["room"].as_str().unwrap()),
+                src: uid(r["id"].as_str().unwrap()),
+                src_entity: "9.9".to_string(),
+                dest: uid("dest"),
+                label: "l".to_string(),
+                cdate: 0,
+                deletion_date: i(&r["deletion_date"]),
+                verifying_key: keys.vk(r["author"].as_str().unwrap()),
+                signature: r["sig"].as_str().unwrap().as_bytes().to_vec(),
+                entity_name: r["entity_name"].as_str().map(|x| x.to_string()),
+            };
+            v.push((e, r["stored"].as_str().map(|k| keys.vk(k))));
+        }
+        for e in ra.validate_edge_deletions(v) {
+            out.push(String::from_utf8(e.signature).unwrap());
+        }
+    } else {
+        let mut v = HashMap::new();
+        for r in sc["rows"].as_array().unwrap() {
+            let e = NodeDeletionEntry {
+                room_id: uid(r["room"].as_str().unwrap()),
+                id: uid(r["id"].as_str().unwrap()),
+                entity: "9.9".to_string(),
+                mdate: 0,
+                deletion_date: i(&r["deletion_date"]),
+                verifying_key: keys.vk(r["author"].as_str().unwrap()),
+                signature: r["sig"].as_str().unwrap().as_bytes().to_vec(),
+                entity_name: r["entity_name"].as_str().map(|x| x.to_string()),
+            };
+            v.insert(e.id, (e, r["stored"].as_str().map(|k| keys.vk(k))));
+        }
+        for e in ra.validate_node_deletions(v) {
+            out.push(String::from_utf8(e.signature).unwrap());
+        }
+    }
+    out.sort();
+    json!({"status": "done", "result": out})
+}
+
 pub fn dispatch(sc: &Value) -> Value {
     match sc["kind"].as_str().unwrap_or("") {
         "entity_mutation" => replay_entity_mutation(sc),
         "deletion" => replay_deletion(sc),
+        "validate_node" => replay_validate_node(sc),
+        "validate_deletions_remote" => replay_validate_deletions_remote(sc),
         other => json!({"status": "unknown-kind", "kind": other}),
     }
 }
